@@ -200,6 +200,9 @@ package pogreb
 //@   ensures [C01] inv-overflow-in-log: err == nil ==> slotsInLog(fData[fidOf[idx.overflow.File]], idx.overflow.size, theDB().datalog)
 //@   ensures [C03] log: segmentsUntouched(theDB().datalog)
 //@   ensures err: err != nil ==> isIOErr(err) || err == io.EOF || err == errFull || !isIOErr(err)
+// Count: the number of keys grows by one exactly when the key was not in the index
+//@   at return: assert [C01] count-new-key: err == nil && !overwritingExisting ==> idx.numKeys == old(idx.numKeys) + 1
+//@   at return: assert [C01] count-overwrite: err == nil && overwritingExisting ==> idx.numKeys == old(idx.numKeys)
 //@   at call write@1: hint overflow-chains-after-insert: chainsOK(fData[fidOf[idx.overflow.File]], idx.overflow.size, idx.overflow.size)
 //@   at call write@1: hint main-chains-after-insert: chainsOK(fData[fidOf[idx.main.File]], idx.main.size, idx.overflow.size)
 //@   modifies any(index).freeBucketOffs, any(index).level, any(index).numKeys, any(index).numBuckets, any(index).splitBucketIdx, any(segmentMeta).DeletedKeys, any(segmentMeta).DeletedBytes, any(file).size, any(slotWriter).bucket, any(slotWriter).slotIdx, any(slotWriter).prevBuckets, any(bucketHandle).bucket, elems(*bucketHandle), elems(int64), fLen, fDur, fData
